@@ -2,7 +2,7 @@ SPECIFICATION Spec
 CONSTANTS
   Kinds = {"plain", "params", "locals", "viewbind", "redirectwith", "withinput", "flashfull", "flashpartial", "flashtrunc", "bindquery", "bindauto", "resphdr", "baseurl", "error", "notallowed"}
   Probes = {"plain", "params", "flashpartial", "flashshort", "bindbad"}
-  MaxHist = 3
+  MaxHist = 4
   ResetFields = {"params", "locals", "viewbind", "flash", "bind", "redirect", "resphdr", "route", "baseuri"}
 INVARIANT NoForeignData
 INVARIANT Emit
